@@ -862,7 +862,7 @@ impl Check for C15
 	}
 	fn rule(&self) -> String
 	{
-		"streams: random bytes (incl. invalid UTF-8, NUL); byte-mutated repository corpus (357 .pn files; bit flips, inserts, deletes, splices, truncation, UTF-8 inserts, window duplication, CRLF); token soup of valid lexemes (every 4th with a planted invalid lexeme); exhaustive token sequences of length <= 4 (quick) / <= 5 (thorough) over a 20-token alphabet at top level and inside a function body; identifier-dense well-formed programs from 1 to 72k tokens (densest parser productions, straddling the 65536-token heuristic); giant single lists (1k-30k statements / arguments / members / parameters / elements / declarations); twelve recursive constructs (operator chains, parentheses, unary chains, blocks, ifs, else-if chains, array literals, calls, indices, array and pointer types, member chains) repeated 100 - 40 000 times. Oracle: lex -> errors -> parse -> errors -> build_header -> all three XML dumps fully iterated inside an isolated worker (any panic/abort/overflow = failure by site); published token vector == independent reference lexer; valid-by-construction modules accepted with no diagnostics, or exactly E103 above the token heuristic; planted invalid lexeme => rejected. Non-trivial: >= 8 tokens (byte streams), >= 3 tokens (exhaustive), always for generated valid programs; distinct by byte hash.".into()
+		"streams: random bytes (incl. invalid UTF-8, NUL); byte-mutated repository corpus (357 .pn files; bit flips, inserts, deletes, splices, truncation, UTF-8 inserts, window duplication, CRLF); token soup of valid lexemes (every 4th with a planted invalid lexeme); exhaustive token sequences of length <= 4 (quick) / <= 5 (thorough) over a 20-token alphabet at top level and inside a function body; identifier-dense well-formed programs from 1 to 72k tokens (densest parser productions, straddling the 65536-token heuristic); giant single lists (1k-30k statements / arguments / members / parameters / elements / declarations); fifteen recursive or counted constructs (operator chains, parentheses, unary chains, blocks, ifs, else-if chains, array literals, calls, indices, array and pointer types, member chains, runs of `&` in an expression / a length / before an assignment) repeated 100 - 40 000 times. Oracle: lex -> errors -> parse -> errors -> build_header -> all three XML dumps fully iterated inside an isolated worker (any panic/abort/overflow = failure by site); published token vector == independent reference lexer; valid-by-construction modules accepted with no diagnostics, or exactly E103 above the token heuristic; planted invalid lexeme => rejected. Non-trivial: >= 8 tokens (byte streams), >= 3 tokens (exhaustive), always for generated valid programs; distinct by byte hash.".into()
 	}
 	fn assumptions(&self) -> Vec<String>
 	{
